@@ -28,7 +28,7 @@ Front(a, b, c) == IF TLCGet(43) < a * 100000 + b + c
                     THEN TLCSet(43, a * 100000 + b + c) /\ TLCSet(44, b) /\ TLCSet(45, c)
                     ELSE TRUE
 
-ReInit == /\ pcP' = "dial" /\ pc' = [d \in Dirs |-> "idle"] /\ buf' = [d \in Dirs |-> <<>>]
+ReInit == /\ pcP' = "dial" /\ pc' = [d \in Dirs |-> "idle"] /\ buf' = [d \in Dirs |-> <<>>] /\ mem' = [c \in Slab |-> 0]
           /\ rerr' = [d \in Dirs |-> FALSE] /\ rdpos' = [d \in Dirs |-> 0] /\ nreads' = [d \in Dirs |-> 0]
           /\ delivered' = [d \in Dirs |-> <<>>] /\ bytes' = [d \in Dirs |-> 0] /\ refused' = [d \in Dirs |-> 0]
           /\ closes' = [c \in Conns |-> 0] /\ asrc' = [d \in Dirs |-> "no"] /\ comp' = [d \in Dirs |-> -1]
@@ -49,7 +49,7 @@ Match(c, e) ==
     [] e.op = "Read"  -> Read(SrcDir(c), e.n, e.e)
     [] e.op = "Write" -> LET d == DstDir(c) IN
                            /\ pc[d] = "wr" /\ Len(buf[d]) = e.off
-                           /\ (e.off > 0 => buf[d][1] = e.first)     \* the bytes offered are the bytes just read
+                           /\ (e.off > 0 => mem[Base(d) + 1] = Id(d, e.first))   \* the bytes offered are what the buffer holds: the bytes just read
                            /\ Write(d, e.n, e.e)
     [] e.op = "Close" -> \/ CloseDst(DstDir(c), e.e)
                          \/ CloseSrc(SrcDir(c), e.e)
